@@ -46,6 +46,7 @@ def build(tier, seed):
         for xi in (0.0, 0.05):
             cases.append({'kind': 'big', 'n': n, 'm': m, 'xi': xi})
     return {
+        'rule_more': 'consecutive spectrum calls of the same size without / with a leading zero period against the single-period results; big-problem family (BIG)',
         'cases': cases,
         'rule': 'record cases: every non-zero record a over {-1,0,1} of length 2..%d x every b of the same length x (alpha,beta) in %s '
                 '(linearity); every split point; every shift 1..3 (records starting at 0); every refinement factor 2..8; x dt %s x xi %s x '
